@@ -123,6 +123,18 @@ def gen_configs(tier: str, seed: int, *, faults: bool) -> list[dict]:
         orbits.append(random_orbit(rng, n, wmax, zeros=rng.random() < 0.4,
                                    interior_break=rng.random() < (0.6 if faults else 0.25),
                                    nan=faults and rng.random() < 0.6))
+    # long orbits: the third doubling (8 states) fits, so that decisions taken on 4-state trees
+    # (extra sub-tree checks, top-level criterion) change which states are reachable
+    n_long = {"quick": 4, "thorough": 16}[tier]
+    for _ in range(n_long):
+        n = rng.randint(9, 11)
+        W, Q, P, brk, nanv = random_orbit(rng, n, 2, zeros=False, interior_break=False, nan=False)
+        P = [rng.choice([-2, -1, 1, 2]) for _ in range(n)]
+        for kernel in ("multinomial", "slice"):
+            for crit in ("riem", "euclid"):
+                cfgs.append(make_cfg(kernel, W, Q, P, brk, nanv, maxdepth=3, crit=crit, extra=True, K=0))
+                if tier == "thorough":
+                    cfgs.append(make_cfg(kernel, W, Q, P, brk, nanv, maxdepth=3, crit=crit, extra=False, K=0))
     for (W, Q, P, brk, nanv) in orbits:
         for kernel in KERNELS:
             variants = kernel_variants(rng, kernel, tier, faults)
